@@ -22,7 +22,7 @@ trap 'git -C /repo checkout -q -- .' EXIT
 git -C /repo apply $DST/patch.diff || { echo "patch does not apply to /repo HEAD"; exit 2; }
 RES=""
 for P_ in "$@"; do
-  OUT=$(cd /verif && tools/vt.py check $P_ 2>&1); RC=$?
+  OUT=$(cd /verif && VT_SCRATCH_EVIDENCE=1 tools/vt.py check $P_ 2>&1); RC=$?
   NV=$(echo "$OUT" | grep -c "^VIOLATION")
   echo "$OUT" | grep "^VIOLATION\|^UNDECIDED\|   obligation" | cut -c1-260 | head -8
   echo "== check $P_: exit $RC, $NV VIOLATION line(s)"
